@@ -131,8 +131,13 @@ def check_obligations(prop, module, names, workdir):
     body = [f"From Pygls Require Import {m}." for m in module]
     for n in names:
         body.append(f'Goal True. idtac "@@BEGIN {n}". Abort.')
-        body.append(f"Check {n}.")
-        body.append(f"Print Assumptions {n}.")
+        # "Module::theorem": Module is imported only here, so that a tie whose module may not build
+        # (a proof about a regenerated file) cannot hide the obligations listed before it
+        late, _, thm = n.rpartition("::")
+        if late:
+            body.append(f"From Pygls Require Import {late}.")
+        body.append(f"Check {thm}.")
+        body.append(f"Print Assumptions {thm}.")
         body.append(f'Goal True. idtac "@@END {n}". Abort.')
     open(fn, "w").write("\n".join(body) + "\n")
     r = sh(f"timeout 600 coqc -Q {COQ} Pygls {fn}", cwd=workdir, timeout=700)
@@ -300,19 +305,21 @@ def run_check(prop, tier="quick", seed=0, replay=None):
     if bad:
         p = write_replay(prop, {"case": None, "verdict": "lint"}, {"broken": "lint", "lines": bad})
         violations.append((p, "no-failing-input-found"))
-    # 1. regenerate tables
+    # 1. regenerate tables  2. build + obligations.  coq/Gen/*.v is shared by concurrent checks of
+    # the same property against different trees (VERIF_REPO): steps 1-2 run under one lock so that
+    # the obligations are checked against the tables generated from THIS run's tree.
     gen_ok = True
-    try:
-        if hasattr(prop, "regenerate"):
-            prop.regenerate(chk)
-    except Exception as e:
-        gen_ok = False
-        chk.notes.append("table regeneration failed: " + repr(e))
-    # 2. build + obligations
-    ok, log = coq_make(prop.coq_targets)
-    if not ok:
-        chk.notes.append("coq build failed: " + log[-1500:])
-    obl, raw = check_obligations(prop.id, prop.modules, prop.obligations, chk.work)
+    with _Lock("pipeline_" + prop.id):
+        try:
+            if hasattr(prop, "regenerate"):
+                prop.regenerate(chk)
+        except Exception as e:
+            gen_ok = False
+            chk.notes.append("table regeneration failed: " + repr(e))
+        ok, log = coq_make(prop.coq_targets)
+        if not ok:
+            chk.notes.append("coq build failed: " + log[-1500:])
+        obl, raw = check_obligations(prop.id, prop.modules, prop.obligations, chk.work)
     discharged = sum(1 for o in obl if o["ok"])
     proofs_ok = ok and gen_ok and discharged == len(obl)
     broken_obl = [o["name"] for o in obl if not o["ok"]]
